@@ -3,9 +3,8 @@
    every (filter, wrapper, index layout, database) of the bounded space is one initial state.
      C02  InvRewrite : the rewritten filter matches exactly what the original matches (both paths)
      C02  InvOrder   : the comparator used by sort+dedup is a total preorder on the terms met
-     C01  InvKnown   : index-driven search differs from the scan semantics ONLY in the two known
-                       defect classes (signature completeness)
-     C01  InvFixed   : with the candidate repair the index-driven search is exact everywhere
+     C01  index-driven search (current, repaired code) equals the scan semantics everywhere; the code before
+          the repair differs ONLY in the two signed defect classes (regression witnesses)
    Counters (TLCSet registers, one worker) give the vacuity guard and the counterexample census. *)
 EXTENDS KFilter, TLCExt, Json, Randomization
 CONSTANTS LeafSet,    \* "small" | "full"
@@ -86,36 +85,43 @@ CaseJson == ToJson([f |-> f, w |-> w, keys |-> KeysOf(lay), db |-> [i \in DOMAIN
 EmitClass(c) == IF c \in TLCGet(10) THEN TRUE ELSE TLCSet(10, TLCGet(10) \cup {c}) /\ PrintT(<<"CASE", CaseJson>>)
 EmitCex == IF TLCGet(11) >= CaseCap THEN TRUE ELSE TLCSet(11, TLCGet(11) + 1) /\ PrintT(<<"CASE", CaseJson>>)
 
+(* The tree under test carries the repair of the two filter2idl defects (commit b91e119: anchored rewrite +
+   AndNot fold).  Current code = RewriteFixed + F2I(fix = TRUE): it must be exact EVERYWHERE.  The transcription of
+   the code before the repair is kept: the states where it diverges are the regression witnesses (census, CASEs). *)
 MCInv ==
   LET orig  == Wrap(f, w)
-      rs    == ResolveIdx(orig, Layout(lay), Sid)
-      rf    == Optimise(rs)
+      idx   == Layout(lay)
+      rs    == ResolveIdx(orig, idx, Sid)
+      rf    == Optimise(Anchor(rs, FALSE, idx))
+      rfo   == Optimise(rs)
       rfn   == RewriteNoIdx(orig, Sid)
       truth == MatchSet(orig, db, Sid)
-      cf    == Cfg(Thres, FALSE, PresAttrs(Layout(lay)))
+      cf    == Cfg(Thres, TRUE, PresAttrs(idx))
+      cfo   == Cfg(Thres, FALSE, PresAttrs(idx))
       idl   == F2I(rf, db, cf)
       got   == SearchIdl(rf, db, Sid, idl)
-      sig   == DefectSig(rf, db, cf)
+      goto  == Search(rfo, db, Sid, cfo)
+      sigo  == DefectSig(rfo, db, cfo)
   IN /\ Count(1)
      \* C02
      /\ (MatchSet(rf, db, Sid) = truth \/ Fail("REWRITE"))
+     /\ (MatchSet(rfo, db, Sid) = truth \/ Fail("REWRITEOLD"))
      /\ (MatchSet(rfn, db, Sid) = truth \/ Fail("REWRITENOIDX"))
      /\ (OrderOk(rs) \/ Fail("ORDER"))
-     \* C01: divergences only in the known classes; census of them
-     /\ (got = truth \/ Count(IF sig = "andnot-isolated" THEN 2 ELSE IF sig = "andnot-partial" THEN 3 ELSE 4))
-     /\ (got = truth \/ sig # "none" \/ Fail("UNEXPLAINED"))
-     /\ (got = truth \/ EmitCex)
-     /\ EmitClass(<<rf.k, idl.k, sig, got = truth, w>>)
-     /\ (sig = "none" \/ Count(5))
-     \* C01: the candidate repair is exact everywhere
-     /\ LET rfx == Optimise(Anchor(rs, FALSE, Layout(lay)))
-        IN /\ (Search(rfx, db, Sid, Cfg(Thres, TRUE, PresAttrs(Layout(lay)))) = truth \/ Fail("FIXWRONG"))
-           /\ (MatchSet(rfx, db, Sid) = truth \/ Fail("FIXREWRITE"))
+     /\ (OrderOk(Anchor(rs, FALSE, idx)) \/ Fail("ORDERANCHORED"))
+     \* C01: index-driven search is exact
+     /\ (got = truth \/ Fail("DIVERGES"))
+     \* regression witnesses: where the code before the repair diverged, and in which class
+     /\ (goto = truth \/ Count(IF sigo = "andnot-isolated" THEN 2 ELSE IF sigo = "andnot-partial" THEN 3 ELSE 4))
+     /\ (goto = truth \/ sigo # "none" \/ Fail("UNEXPLAINED"))
+     /\ (goto = truth \/ EmitCex)
+     /\ (sigo = "none" \/ Count(5))
+     /\ EmitClass(<<rf.k, idl.k, sigo, goto = truth, w>>)
      \* vacuity guard: candidate-set classes reached
      /\ Count(CASE idl.k = "allids" -> 6 [] idl.k = "partial" -> 7 [] idl.k = "pthres" -> 8 [] OTHER -> 9)
 
 ASSUME (\A r \in 1..9 : TLCSet(r, 0)) /\ TLCSet(10, {}) /\ TLCSet(11, 0)
-\* CENSUS: states, wrong-with-D1, wrong-with-D2, wrong-unexplained, states with a defect signature,
+\* CENSUS: states, pre-repair code wrong with D1, with D2, unexplained, states with a pre-repair defect signature,
 \*         allids, partial, pthres, indexed
 Census == PrintT(<<"CENSUS", TLCGet(1), TLCGet(2), TLCGet(3), TLCGet(4), TLCGet(5), TLCGet(6), TLCGet(7), TLCGet(8), TLCGet(9)>>)
 =============================================================================
